@@ -139,7 +139,9 @@ def iterative(rep):
     i, ri = [norm(e) for e in ol.target.elts]
     rets = returns_of(fi.node)
     rm = pmatch("($clusters, $map)", rets[-1].value) if rets else None
-    rep.ob("O13.2", "R6b", fi, rm is not None, rets[-1] if rets else "return", "the class list and the item->class map are returned")
+    # a pair of something else than two locals (e.g. attributes of a bookkeeping object): the rule cannot follow it -> not decided
+    pair = bool(rets) and isinstance(rets[-1].value, ast.Tuple) and len(rets[-1].value.elts) == 2
+    rep.ob("O13.2", "R6b", fi, True if rm is not None else (None if pair else False), rets[-1] if rets else "return", "the class list and the item->class map are returned")
     if rm is None:
         raise AnalysisError("iterative_cluster no longer returns (clusters, item->class map)")
     CL, MAP = rm["clusters"], rm["map"]
